@@ -38,6 +38,8 @@ fn i_at(q: &Injector<It>, k: usize) -> It { let i = q.inner(); i.buf[(i.head + k
 fn w_count(w: &Worker<It>, x: It) -> usize { let mut n = 0; let mut k = 0; while k < w_len(w) { if w_at(w, k) == x { n += 1; } k += 1; } n }
 fn i_count(q: &Injector<It>, x: It) -> usize { let mut n = 0; let mut k = 0; while k < i_len(q) { if i_at(q, k) == x { n += 1; } k += 1; } n }
 
+/// an injector that really holds what the shared-pop contract stub will answer (see harness/Q/ordered.rs, GSlots::holding)
+fn holding(sv: Option<It>) -> Injector<It> { let q = Injector::new(); if let Some(v) = sv { q.push(v); } q }
 fn mk_shared(g: Injector<It>, l0: Worker<It>, l1: Worker<It>) -> WorkStealQueue<It> {
     let n = i_len(&g);
     let mut v = VecDeque::with_capacity(2);
@@ -94,10 +96,10 @@ fn p_pop_consultation_order() {
     let (front, ln) = (w_at(&l0, 0), w_len(&l0));
     let x: It = kani::any();
     let lc = w_count(&l0, x);
-    let q = mk_shared(Injector::new(), l0, Worker::new(CAP));
+    let sv: Option<It> = kani::any();
+    let q = mk_shared(holding(sv), l0, Worker::new(CAP));
     let c: u32 = kani::any();
     let a = mk_local(&q, 0, c);
-    let sv: Option<It> = kani::any();
     unsafe { STUB_SHARED = sv; SHARED_CALLS = 0; LOCAL_PTR = a.queue; }
     let r = a.pop();
     let sixty_first = c.wrapping_add(1) % 61 == 0;
@@ -192,7 +194,7 @@ fn idle(start: usize) {
     kani::assume(sv.is_some() || sn > 0);
     let x: It = kani::any();
     let total_x = w_count(&l1, x);
-    let q = mk_shared(Injector::new(), Worker::new(CAP), l1);
+    let q = mk_shared(holding(sv), Worker::new(CAP), l1);
     let c: u32 = kani::any();
     kani::assume(c.wrapping_add(1) % 61 != 0);
     let a = mk_local(&q, 0, c);
